@@ -140,8 +140,7 @@ def run(sc):
     with harness.Seams(sim, net, sc["driver"].get("log", "off")):
         lib = harness.lib()
         drv = lib.SLCDriver(sc["driver"]["path"])
-        for _ in range(sc["driver"].get("seq_advance", 0)):
-            next(drv._sequence)
+        session.advance_sequence(drv, sc["driver"].get("seq_advance", 0))
         for op in sc["ops"]:
             session.begin_op(env, op["id"])
             k = op["kind"]
